@@ -11,5 +11,6 @@ CONSTANTS
   Kinds = {"cpuset", "limit"}
   Algos = {"leveled"}
   CacheMode = "coldwarm"
+  ExternalSteps = FALSE
 INVARIANT GenPrint
 CHECK_DEADLOCK FALSE
